@@ -112,12 +112,35 @@ var curSentinel error
 
 func newSentinel() { curSentinel = drpcerr.WithCode(errors.New(sentinelText), 5) }
 
+// cycErr is one half of a two-element Unwrap cycle (handler results are data the
+// library has to survive, C13): whoever walks the chain without a bound never
+// ends; the chain panics after 5000 steps so that such a walk is reported.
+type cycErr struct {
+	msg   string
+	next  *cycErr
+	steps *int
+}
+
+func (c *cycErr) Error() string { return c.msg }
+func (c *cycErr) Unwrap() error {
+	*c.steps++
+	if *c.steps > 5000 {
+		panic("the Unwrap chain of a handler error was followed more than 5000 times")
+	}
+	return c.next
+}
+
 func buildErr(e ErrSpec) error {
 	switch e.Style {
 	case 4:
 		return curSentinel
 	case 5:
 		return drpcerr.WithCode(curSentinel, 9)
+	case 6:
+		n := 0
+		a, b := &cycErr{msg: e.Msg, steps: &n}, &cycErr{msg: e.Msg, steps: &n}
+		a.next, b.next = b, a
+		return a
 	}
 	var err error = errors.New(e.Msg)
 	if e.Style == 3 {
